@@ -210,6 +210,9 @@ def run(tier):
     # C comment are separators
     from .. import regexlex
     regexlex.run(ck, "C05", tier, impl.loader(expand_includes=True), None)
+    # [ name ] with blanks inside the brackets against the tight form (spec/BindLex.tla)
+    from .. import bindlex
+    bindlex.run(ck, "C05", tier, impl.loader(expand_includes=True), None)
     verdicts = tracecheck.validate("TraceOptions", records, "c05", ck=ck, chunk=300, canary=canary)
     for tid, v in verdicts.items():
         if v["verdict"] != "ok":
